@@ -317,6 +317,9 @@ def judge(sc: Dict[str, Any], res: Dict[str, Any]):
     cnt["launches"] = len(launches)
     cnt["kernel_passes"] = len(passes)
     T = next((e["seq"] for e in evs if e["kind"] == "notify_all_producers_finished"), None)
+    # a pass that starts while the notification call is still in progress may not see it yet: upper-bound clauses
+    # ("stops after ...") count from the return of the call, lower-bound clauses ("does not stop before ...") from its entry
+    T_ret = next((e["seq"] for e in evs if e["kind"] == "notify.returned"), T)
     ext_kill = any(e["kind"] == "engine.kill" and e["comp"] == obs and e.get("tag") == "external" for e in evs)
     end = next((e for e in evs if e["kind"] == "observed.end"), None)
     # (a) never executes before there is producer output it can consume
@@ -356,14 +359,14 @@ def judge(sc: Dict[str, Any], res: Dict[str, Any]):
         # already under way when the notification arrived legitimately does not treat itself as the last one)
         def pass_seq(l):
             return max([p["seq"] for p in passes if p["seq"] < l["seq"]], default=0)
-        after = [l for l in launches if pass_seq(l) > T and (L is None or pass_seq(l) > L)]
+        after = [l for l in launches if pass_seq(l) > T_ret and (L is None or pass_seq(l) > L)]
         first_ok = next((l for l in after if exits.get(l["exec"], {}).get("reason") == "Success"), None)
         if first_ok is not None:
             later = [l for l in launches if l["seq"] > first_ok["seq"]]
             if later:
                 viol.append({"clause": "c:executed-again-after-successful-final-execution", "first_ok": first_ok["seq"],
                              "later": [l["seq"] for l in later]})
-        n_after = sum(1 for p in passes if p["seq"] > T)
+        n_after = sum(1 for p in passes if p["seq"] > T_ret)
         if sc.get("kill_delay") is None and n_after > res["retries"] + 3:
             viol.append({"clause": "c:too-many-kernel-passes-after-notification", "passes_after_T": n_after,
                          "retries": res["retries"]})
@@ -413,6 +416,7 @@ def judge_controller(nodes: Dict[str, Dict[str, Any]], result: Dict[str, Any]):
                     viol.append({"clause": "a:launched-before-any-producer-output", "observer": obs, "producer": p,
                                  "launch_seq": l["seq"]})
         T = next((e["seq"] for e in evs if e["kind"] == "notify_all_producers_finished" and e["comp"] == obs), None)
+        T_ret = next((e["seq"] for e in evs if e["kind"] == "notify.returned" and e["comp"] == obs), T)
         if T is None:
             cnt["ctl_skipped_no_notification"] += 1
             continue
@@ -436,14 +440,14 @@ def judge_controller(nodes: Dict[str, Dict[str, Any]], result: Dict[str, Any]):
 
         def pass_seq(l):
             return max([p["seq"] for p in passes if p["seq"] < l["seq"]], default=0)
-        after = [l for l in launches if pass_seq(l) > T and (L is None or pass_seq(l) > L)]
+        after = [l for l in launches if pass_seq(l) > T_ret and (L is None or pass_seq(l) > L)]
         first_ok = next((l for l in after if exits.get(l["exec"], {}).get("reason") == "Success"), None)
         if first_ok is not None:
             later = [l for l in launches if l["seq"] > first_ok["seq"]]
             if later:
                 viol.append({"clause": "c:executed-again-after-successful-final-execution", "observer": obs,
                              "first_ok": first_ok["seq"], "later": [l["seq"] for l in later]})
-        n_after = sum(1 for p in passes if p["seq"] > T)
+        n_after = sum(1 for p in passes if p["seq"] > T_ret)
         if n_after > 3 + 3:
             viol.append({"clause": "c:too-many-kernel-passes-after-notification", "observer": obs, "passes_after_T": n_after})
     return viol, cnt
